@@ -233,6 +233,65 @@ theorem no_mode_step_rot (φ : Nat → Outcome) (fmt : Format) (crc : Bytes → 
   | truncate T => rfl
   | reopen c r => cases c <;> rfl
 
+/-- EverySecond / No: a step adds exactly the ids of the event's `write_durable` caller, at once,
+    and never leaves anybody pending -/
+theorem stepP_now_ids (p : Policy) (hp : p ≠ .always) (φ : Nat → Outcome) (fmt : Format) (crc : Bytes → Nat) (a : Actor) (ev : Ev)
+    (hpend : a.pending = []) :
+    (Actor.stepP p φ fmt crc a ev).pending = [] ∧
+    (Actor.stepP p φ fmt crc a ev).acks.map (·.id) = ev.ids.reverse ++ a.acks.map (·.id) := by
+  cases p with
+  | always => exact absurd rfl hp
+  | everySecond =>
+    cases ev with
+    | write w =>
+      simp only [Actor.stepP, Actor.handleWriteNow, Ev.ids]
+      cases Rot.append true fmt φ a.rot (Entry.mk' fmt crc w.data w.ts) with
+      | mk r oe => cases oe <;> simp [hpend]
+    | forget w =>
+      simp only [Actor.stepP, Actor.handleWriteNow, Ev.ids]
+      cases Rot.append true fmt φ a.rot (Entry.mk' fmt crc w.data w.ts) with
+      | mk r oe => cases oe <;> simp [hpend]
+    | tick => simp only [Actor.stepP, Actor.tickEverySec, Ev.ids]; split <;> simp [hpend]
+    | truncate T => simp [Actor.stepP, Actor.handleTruncate, Ev.ids, hpend]
+    | flush => simp [Actor.stepP, Ev.ids, hpend]
+    | reopen c r =>
+      cases c
+      · simp only [Actor.stepP, Actor.reopenNow, Bool.false_eq_true, if_false, if_true, Actor.tickEverySec, Ev.ids]
+        split <;> simp [hpend]
+      · simp [Actor.stepP, Actor.reopenNow, Ev.ids]
+  | no =>
+    cases ev with
+    | write w =>
+      simp only [Actor.stepP, Actor.handleWriteNow, Ev.ids]
+      cases Rot.append true fmt φ a.rot (Entry.mk' fmt crc w.data w.ts) with
+      | mk r oe => cases oe <;> simp [hpend]
+    | forget w =>
+      simp only [Actor.stepP, Actor.handleWriteNow, Ev.ids]
+      cases Rot.append true fmt φ a.rot (Entry.mk' fmt crc w.data w.ts) with
+      | mk r oe => cases oe <;> simp [hpend]
+    | tick => simp [Actor.stepP, Ev.ids, hpend]
+    | truncate T => simp [Actor.stepP, Actor.handleTruncate, Ev.ids, hpend]
+    | flush => simp [Actor.stepP, Ev.ids, hpend]
+    | reopen c r =>
+      cases c
+      · simp [Actor.stepP, Actor.reopenNow, Ev.ids, hpend]
+      · simp [Actor.stepP, Actor.reopenNow, Ev.ids]
+
+theorem runP_now_ids (p : Policy) (hp : p ≠ .always) (φ : Nat → Outcome) (fmt : Format) (crc : Bytes → Nat) (evs : List Ev) (a : Actor)
+    (hpend : a.pending = []) :
+    (evs.foldl (Actor.stepP p φ fmt crc) a).pending = [] ∧
+    (evs.foldl (Actor.stepP p φ fmt crc) a).acks.map (·.id) = (evs.flatMap Ev.ids).reverse ++ a.acks.map (·.id) := by
+  induction evs generalizing a with
+  | nil => simp [hpend]
+  | cons ev evs ih =>
+    obtain ⟨h1, h2⟩ := stepP_now_ids p hp φ fmt crc a ev hpend
+    obtain ⟨i1, i2⟩ := ih _ h1
+    simp only [List.foldl_cons]
+    refine ⟨i1, ?_⟩
+    rw [i2, h2]
+    simp [List.flatMap_cons, List.reverse_append, List.append_assoc]
+
+
 /-! ### the burst schedule preserves the actor invariant -/
 
 def Msg.Ok (fmt : Format) (crc : Bytes → Nat) : Msg → Prop
